@@ -819,7 +819,12 @@ func compare(v1, v2 *Version) int {
 		n = len(v2.num)
 	}
 	for i := 0; i < n; i++ {
-		if s := sgnv(v1.getNum(i), v2.getNum(i)); s != 0 {
+		n1, n2 := v1.getNum(i), v2.getNum(i)
+		if n1 == wildcard && n2 == wildcard {
+			// Nothing after a wildcard is relevant, as in Canon.
+			return 0
+		}
+		if s := sgnv(n1, n2); s != 0 {
 			return s
 		}
 	}
